@@ -68,6 +68,7 @@ fn main() {
         "C04" => facets::c04::run(&opts),
         "C10" => facets::c10::run(&opts),
         "C05" => facets::c05::run(&opts),
+        "C14" => facets::c14::run(&opts),
         other => {
             eprintln!("unknown facet {}", other);
             std::process::exit(2)
